@@ -93,8 +93,11 @@ func c11Check(c timed.Cfg) func(o *obs.Obs) string {
 				if i != j {
 					return fmt.Sprintf("%s/calls|the function was called on index %d as its call number %d", tag, i, j)
 				}
-				if e.Time < int64(i+1)*f {
-					return fmt.Sprintf("%s/pace|f(%d) called at t=%d, before %d ticks of %d had elapsed", tag, i, e.Time, i+1, f)
+				// at most one call per tick: call number i (from 0) cannot happen before i ticks have elapsed; whether
+				// the stage sleeps before or after applying the function is its own business as long as the value
+				// of index i is not available before i+1 ticks (checked on the receive stamps below)
+				if e.Time < int64(i)*f {
+					return fmt.Sprintf("%s/pace|f(%d) called at t=%d, before %d ticks of %d had elapsed: more than one call per tick", tag, i, e.Time, i, f)
 				}
 				if j > 0 && e.Time-calls[j-1].Time < f {
 					return fmt.Sprintf("%s/pace|f(%d) at t=%d and f(%d) at t=%d are less than one tick (%d) apart", tag, i-1, calls[j-1].Time, i, e.Time, f)
